@@ -140,7 +140,9 @@ def run_l2(prop, tier, out, workdir):
             evs = slice_at_line(v["trace"], v["line"])
             sc = evs[0] if evs else {}
             out.violation("L2 %s|%s|%s" % (v["rule"], fam, sc.get("kind")), "L2 %s (family %s, kind %s, transport %s, layout %s, fault %s)" % (v["rule"], fam, sc.get("kind"), sc.get("transport"), json.dumps(sc.get("layout")), sc.get("fault")),
-                          {"kind": "clone_l2", "family": fam, "mode": mode, "scenario_n": sc.get("n"), "layout": sc.get("layout"), "verdict": {k: v[k] for k in ("rule", "scenario", "line")}, "events": evs[:120]})
+                          {"kind": "clone_l2", "family": fam, "mode": mode, "scenario_n": sc.get("n"), "layout": sc.get("layout"), "verdict": {k: v[k] for k in ("rule", "scenario", "line")}, "events": evs[:120],
+                           "rerun": {"cfg": cfgname, "seed": seed(), "shard": v.get("shard", 0), "shards": shards, "every": every, "mode": mode, "n": sc.get("n"),
+                                     "max_faults": 5 if tier == "quick" else 12}})
     return total, tv, counts, samples
 
 
@@ -256,6 +258,30 @@ def replay_clone(path):
     build_harness()
     r = json.load(open(path))
     rp = r["replay"]
+    if rp.get("kind") == "clone_l2" and "rerun" in rp:
+        # the real process again: the same scenario of the same shard (own random stream per scenario), judged by CloneL2Trace.tla
+        import sys
+        build_cli()
+        ensure_fi()
+        rr = rp["rerun"]
+        workdir = os.path.join(WORK, "replay_%d" % os.getpid())
+        os.makedirs(workdir, exist_ok=True)
+        os.environ["VERIF_SEED"] = str(rr["seed"])
+        scen = gen_cached("CloneGen", "CloneGen_%s.cfg" % rr["cfg"], "clone_" + rr["cfg"])
+        tr = os.path.join(workdir, "trace.ndjson")
+        rc, o = run([sys.executable, os.path.join(VERIF, "lib", "clone_l2.py"), "--scen", scen, "--out", tr, "--shard", str(rr["shard"]), "--shards", str(rr["shards"]),
+                     "--bita", BITA, "--dir", os.path.join(workdir, "fs"), "--seed", str(rr["seed"]), "--every", str(rr["every"]), "--mode", rr["mode"],
+                     "--fi", os.path.join(WORK, "fi.so"), "--max-faults", str(rr["max_faults"]), "--only", str(rr["n"])], check=False)
+        verdicts, summary = tlc_validate("CloneL2Trace", "CloneL2Trace.cfg", [tr])
+        print(open(tr).read()[:6000])
+        for x in verdicts:
+            print("VERDICT", x["rule"], "line", x["line"])
+        shutil.rmtree(workdir, ignore_errors=True)
+        if verdicts:
+            print("VIOLATION property=%s replay=%s" % (r["property"], path))
+            return 1
+        print("replay: no verdict (accepted)")
+        return 0
     if rp.get("kind") != "clone_l1":
         print(json.dumps(rp, indent=1)[:5000])
         return 0
